@@ -41,6 +41,8 @@ type Translator struct {
 	recvName string
 	mutates  bool
 	fresh    int
+	dropRecv      bool
+	paramOverride map[string]string
 	written  map[string]bool // receiver fields this function writes (tracked as locals <recv>_<Field>)
 	reads    map[string]map[string]bool // per translated func key: receiver fields it reads (transitively)
 }
@@ -425,6 +427,9 @@ func (t *Translator) call(c *ast.CallExpr) string {
 								t.fail(c, "callee %s reads receiver field %s which the caller writes", key, fld)
 							}
 						}
+					}
+					if t.dropRecv {
+						return "(" + fs.LeanName + " F" + args() + ")"
 					}
 					return "(" + fs.LeanName + " F " + t.val(f.X) + args() + ")"
 				}
@@ -889,10 +894,18 @@ func (t *Translator) Func(fs *FuncSpec) (out string, err error) {
 		}
 		t.recvName = f.Names[0].Name
 		t.recvObj = t.pkg.Info.Defs[f.Names[0]]
-		params += " (" + leanIdent(t.recvName) + " : " + t.leanType(t.recvObj.Type(), fd) + ")"
+		if !t.dropRecv {
+			params += " (" + leanIdent(t.recvName) + " : " + t.leanType(t.recvObj.Type(), fd) + ")"
+		}
 	}
 	for _, f := range fd.Type.Params.List {
 		for _, n := range f.Names {
+			if ov, ok := t.paramOverride[n.Name]; ok {
+				if ov != "" {
+					params += " " + ov
+				}
+				continue
+			}
 			params += " (" + leanIdent(n.Name) + " : " + t.leanType(t.pkg.Info.Defs[n].Type(), n) + ")"
 		}
 	}
